@@ -422,9 +422,10 @@ theorem adaptNode_ok (F : Facts) (ctx opsets : List Req) : ∀ n : PNode,
       simp only [reqNode, List.mem_append]
       exact Or.inl hr
     · cases k with
-      | func d v => simp at he
+      | func d v nm => simp at he
       | internal => exact adaptBodies_ok F ctx subs hsubs e he
       | intro => exact adaptBodies_ok F ctx subs hsubs e he
+      | introOpt => exact adaptBodies_ok F ctx subs hsubs e he
       | inline a b => exact adaptBodies_ok F ctx subs hsubs e he
       | op d o v => exact adaptBodies_ok F ctx subs hsubs e he
 theorem adaptBodies_ok (F : Facts) (ctx : List Req) : ∀ gs : List PGraph,
